@@ -14,19 +14,11 @@ def pre(chk):
 
 def _batch(rng, scale, modes):
     cases = []
-    for tmpl in G.TEMPLATES:
+    for tmpl in G.shipped_templates(C.REPO):
         for mode, n in modes:
             for _ in range(max(1, int(n * scale))):
                 cases.append(G.gen_case(rng, tmpl, mode))
     return cases
-
-
-def _f11_key(c, impl_line):
-    # classifier of the finding recorded as F11: the shipped close template of the HTTP notifier names a field
-    # (.Id) the data does not have, so it fails for every status
-    if c["template"] == "default-http-delete.tmpl" and impl_line.startswith("ERR"):
-        return "http-delete-template-unknown-field"
-    return None
 
 
 def run(chk, failed):
@@ -66,10 +58,9 @@ def run(chk, failed):
         chk.count("impl:" + a.split(" ")[0] + ("" if " " not in a else " " + a.split(" ")[1]))
         fails = G.oracle(c, a)
         if fails:
+            # no recorded, unrepaired finding exists for C20 (F11 was repaired by /repo commit 3f5942d and suppresses
+            # nothing): every failure is a violation
             failing += 1
-            key = _f11_key(c, a)
-            if key and chk.known_finding(key, ln):
-                continue
             if reported < 5:
                 reported += 1
                 chk.violation("render_%d" % i, {
@@ -77,6 +68,21 @@ def run(chk, failed):
                     "impl_output": a, "model_output": b, "oracle_verdict": fails,
                     "broken": "C20: every shipped template renders (to well-formed JSON) for every status",
                     "cmd": "bin/check C20 --replay <this file>"})
+    # what the data offers: one-action templates against every documented field / helper, on the real code
+    offers = chk.run_impl("tmpl", "TestVerifProbeTmpl", [G.offer_case(t) for t, _ in G.OFFERS], name="offers",
+                          extra_env={"VERIF_TMPL_ERRORS": "1"})
+    chk.evaluations += len(offers)
+    for k, ((text, expect), a) in enumerate(zip(G.OFFERS, offers)):
+        chk.count("offer:" + ("ok" if a.startswith("OK") else a.split(" ")[0]))
+        fails = G.offer_oracle(text, expect, a)
+        if fails:
+            failing += 1
+            reported += 1
+            chk.violation("offer_%d" % k, {
+                "kind": "input", "probe": "notifier/TestVerifProbeTmpl", "case": G.offer_case(text), "template_text": text,
+                "impl_output": a, "documented_output": expect, "oracle_verdict": fails,
+                "broken": "C20: the data handed to templates offers the documented fields and helper functions",
+                "cmd": "bin/check C20 --replay <this file>"})
     for k in (0, len(lines) // 3, (2 * len(lines)) // 3, len(lines) - 1):
         chk.sample({"case": lines[k], "describe": G.describe(parsed[k]), "impl": impl[k], "model": model[k]})
     # model and implementation disagree on a case the oracle accepts: the correspondence is broken, not the property
@@ -95,9 +101,12 @@ def run(chk, failed):
     chk.notes.append("%d cases, %d model/implementation mismatches, %d oracle failures" % (len(lines), len(mism), failing))
     chk.assumptions += [
         "text/template, fmt, time.Format and encoding/json are modelled by their documented behaviour (Tmpl.v header), not verified",
-        "json_wellformed: numbers printed by Go and json.Marshal output are well-formed JSON values, time.Format output and numbers are JSON-string-safe (Section hypotheses of JsonProofs)",
+        "hole languages (Json.inst): what Go prints for an integer or a finite float is a JSON number literal (go_number grammar proved to be one), "
+        "json.Marshal output is a text json.Valid accepts, time.Format / String-method output is JSON-string-safe",
         "value-receiver methods with a single string result (StatusConstant.String, time.Time.Format) are total",
-        "status_wf (listed partitions are non-nil and carry Start and End) is what the evaluator guarantees; the lead connects it to Eval.eval_partition",
+        "the data reaching executeTemplate is Tmpl.data_of of Eval.filter_view (Eval.eval_group ...): coordinator.go sends EvaluatorRequests without ShowAll and "
+        "passes the reply to Notify unchanged (read, not proved); Eval.v itself is tied to the evaluator by C03/C04",
+        "C20_shipped_json_partial assumes finite completeness ratios (the evaluator divides only by positive counts; not derived from Eval.v)",
     ]
 
 
@@ -110,6 +119,15 @@ def replay(path):
         print("replay file has no case (broken: %s)" % obj.get("broken"))
         return 2
     chk = Check("C20", "quick", int(obj.get("seed", 1)))
+    if case.startswith("offer "):
+        text, expect = obj["template_text"], obj["documented_output"]
+        impl = chk.run_impl("tmpl", "TestVerifProbeTmpl", [case], name="replay", extra_env={"VERIF_TMPL_ERRORS": "1"})
+        fails = G.offer_oracle(text, expect, impl[0])
+        print("case:   " + text)
+        print("impl:   " + impl[0])
+        print("oracle: " + (", ".join(fails) if fails else "holds"))
+        sys.stdout.flush()
+        return 1 if fails else 0
     pre(chk)
     C.build_coq()
     impl, model, mism = chk.differential("tmpl", "tmpl", "TestVerifProbeTmpl", [case], name="replay",
